@@ -10,6 +10,7 @@ use metrique_writer::value::ValueFormatter;
 use std::time::{Duration, Instant, UNIX_EPOCH};
 use vcommon::recording::{Val, record_value};
 use vcommon::serde_json::json;
+use vcommon::sync::is_miri;
 use vcommon::{Args, Fnv, Report, Rng};
 
 #[derive(Clone, Copy, Debug, PartialEq, Eq)]
@@ -123,10 +124,89 @@ fn run(ops: &[Op], rep: &Report) -> bool {
             return false;
         }
     }
-    // closing by value agrees with closing by reference
-    let by_ref = (&sw).close();
+    // closing by value (what emitting a #[metrics] struct does) agrees with closing by reference,
+    // also while owned guards are still live
+    let live_at_close = guards.len();
+    let by_val = sw.close();
+    let expect = m.total.map(Duration::from_millis);
+    if by_val != expect {
+        rep.violation(
+            "stopwatch-total-differs-from-reference",
+            json!({"ops": format!("{ops:?}"), "what": "closing the stopwatch BY VALUE at the end of the sequence must report the same total as closing it by reference",
+                   "live_owned_guards_at_close": live_at_close, "reported": format!("{by_val:?}"), "expected": format!("{expect:?}")}),
+        );
+        return false;
+    }
     drop(guards);
-    let _ = by_ref;
+    true
+}
+
+/// several owned guards of one stopwatch end at the same moment on different threads
+fn concurrent_round(rng: &mut Rng, rep: &Report) -> bool {
+    let ts = ManuallyAdvancedTimeSource::at_time(UNIX_EPOCH);
+    let mut sw = Stopwatch::new_from_timesource(TimeSource::custom(ts.clone()));
+    // some completed history first (possibly still in the exclusive representation)
+    let mut expect: Option<u64> = None;
+    if rng.bool() {
+        let g = sw.start();
+        ts.update_instant(Duration::from_millis(1 << 30));
+        drop(g);
+        expect = Some(1 << 30);
+    }
+    let n = if is_miri() { 2 } else { 2 + rng.usize_below(4) };
+    let mut guards = vec![];
+    for k in 0..n {
+        guards.push((sw.start_owned(), k));
+        ts.update_instant(Duration::from_millis(1 << k));
+    }
+    // guard k has been running for 2^k + ... + 2^(n-1) ms
+    let gate = std::sync::Arc::new(std::sync::atomic::AtomicUsize::new(0));
+    let ends: Vec<End> = (0..n).map(|_| *rng.pick(&[End::Stop, End::Stop, End::Drop, End::Discard])).collect();
+    let threads: Vec<_> = guards
+        .into_iter()
+        .map(|(g, k)| {
+            let (gate, e) = (gate.clone(), ends[k]);
+            std::thread::spawn(move || {
+                gate.fetch_add(1, std::sync::atomic::Ordering::SeqCst);
+                let mut spins = 0u32;
+                while gate.load(std::sync::atomic::Ordering::SeqCst) < n {
+                    spins += 1;
+                    if spins > 2000 || is_miri() {
+                        std::thread::yield_now();
+                    } else {
+                        std::hint::spin_loop();
+                    }
+                }
+                match e {
+                    End::Stop => {
+                        let _ = g.stop();
+                    }
+                    End::Drop => drop(g),
+                    _ => g.discard(),
+                }
+            })
+        })
+        .collect();
+    for t in threads {
+        let _ = t.join();
+    }
+    for k in 0..n {
+        if ends[k] != End::Discard {
+            let span: u64 = (k..n).map(|j| 1u64 << j).sum();
+            expect = Some(expect.unwrap_or(0) + span);
+        }
+    }
+    let got = sw.close();
+    let want = expect.map(Duration::from_millis);
+    if got != want {
+        rep.violation(
+            "stopwatch-total-differs-from-reference",
+            json!({"what": "owned guards of one stopwatch ended concurrently on separate threads (clock not advancing meanwhile): the total must be the sum of the completed, non-discarded spans",
+                   "guards": n, "ends": format!("{ends:?}"), "reported": format!("{got:?}"), "expected": format!("{want:?}")}),
+        );
+        return false;
+    }
+    rep.count("concurrent_guard_rounds", 1);
     true
 }
 
@@ -196,6 +276,12 @@ fn random_sequences(args: &Args, rep: &Report, budget: Duration) {
                         return;
                     }
                     rep.count("random_sequences", 1);
+                    for _ in 0..3 {
+                        rep.eval();
+                        if !concurrent_round(&mut rng, rep) {
+                            return;
+                        }
+                    }
                     rep.distinct(Fnv::new().str(&format!("{:?}", &ops[..12.min(ops.len())])).u64(len as u64).finish());
                 }
             });
@@ -325,10 +411,42 @@ fn timers_and_timestamps(args: &Args, rep: &Report) {
 fn main() {
     let args = Args::parse();
     let rep = Report::new("C18", &args);
+    if is_miri() || args.get_u64("tiny", 0) == 1 {
+        rep.rule("owned guards of one stopwatch ended concurrently on separate threads, and short random op sequences, under the interpreter/sanitizer");
+        let mut rng = Rng::derive(args.seed, args.get_u64("variant", 0));
+        for i in 0..args.get_u64("rounds", 4) {
+            rep.eval();
+            if !concurrent_round(&mut rng, &rep) {
+                break;
+            }
+            rep.distinct(Fnv::new().str("conc").u64(i).finish());
+            let ops: Vec<Op> = {
+                let mut ops = vec![];
+                let mut live = 0usize;
+                for _ in 0..12 {
+                    let op = *rng.pick(&enabled(live, 3));
+                    match op {
+                        Op::StartOwned => live += 1,
+                        Op::EndOwned(..) => live -= 1,
+                        _ => {}
+                    }
+                    ops.push(op);
+                }
+                ops
+            };
+            rep.eval();
+            if !run(&ops, &rep) {
+                break;
+            }
+            rep.distinct(Fnv::new().str(&format!("{ops:?}")).finish());
+        }
+        println!("OUTCOME rounds={}", rep.counter("concurrent_guard_rounds"));
+        rep.finish_and_exit();
+    }
     rep.rule(
         "stopwatch op sequences over a ManuallyAdvancedTimeSource: start_owned (up to 2 live in the exhaustive part, 3 in the random part), advance (by distinct powers of two, so a total identifies its spans), \
          stop/drop/discard/overwrite of any live owned guard, a borrowed guard (start, advance, end), clear. EVERY sequence up to length L, plus random ones up to length 200; after every prefix close(&stopwatch) \
-         must equal the reference total. Timers (creation -> first stop / close, repeated stops), Timestamp / TimestampOnClose in EpochSeconds/Millis/Micros, and the time-source resolution order. \
+         must equal the reference total, and so must closing BY VALUE at the end (owned guards possibly still live). Rounds of 2-5 owned guards ended at the same moment on separate threads (stop/drop/discard). Timers (creation -> first stop / close, repeated stops), Timestamp / TimestampOnClose in EpochSeconds/Millis/Micros, and the time-source resolution order. \
          distinct = distinct op sequences",
     );
     let depth = args.get_u64("depth", args.by_tier(6, 7)) as usize;
